@@ -1694,3 +1694,125 @@ func c15r17(rc *core.RC) {
 		rc.OK("encoder/isTaggedKey-set-once", token.NoPos, "isTaggedKey is set in the literals that make a field code and assigned nowhere else")
 	}
 }
+
+// ---- C15.R18 depth first, then tags ----
+
+// Go's rule for same-named fields has an order: the fields at the shallowest embedding depth hide the deeper ones, and
+// only among the fields AT that depth a tagged one is preferred. In both resolvers (encoder getDuplicatedFieldMap,
+// decoder filterDuplicatedFields) the step that looks at the tags (a call of a function that reads isTaggedKey, or a
+// read of isTaggedKey itself) has to work on a list that was selected by depth: a list variable that is appended to
+// only under a comparison of a candidate's depth with the minimum depth.
+func c15r18(rc *core.RC) {
+	p := rc.P
+	readsTagged := func(fd *ast.FuncDecl) bool {
+		if fd == nil || fd.Body == nil {
+			return false
+		}
+		found := false
+		ast.Inspect(fd.Body, func(m ast.Node) bool {
+			if sel, ok := m.(*ast.SelectorExpr); ok && sel.Sel.Name == "isTaggedKey" {
+				found = true
+			}
+			return true
+		})
+		return found
+	}
+	n := 0
+	for _, spec := range [][2]string{{"encoder", "Compiler.getDuplicatedFieldMap"}, {"decoder", "filterDuplicatedFields"}} {
+		fd := p.Func(spec[0], spec[1])
+		base := spec[0] + "." + spec[1]
+		if fd == nil || fd.Body == nil {
+			rc.Unknown(base+"/tag-step", token.NoPos, "conflict resolver not found")
+			continue
+		}
+		info := p.Info(fd)
+		rc.Touch(p.FuncName(fd))
+		// list variables selected by depth: every append to them stands under a depth comparison
+		depthCond := func(e ast.Expr) bool {
+			found := false
+			ast.Inspect(e, func(m ast.Node) bool {
+				if f := core.FieldOf(info, nodeExpr(m)); f != nil && f.Name() == "depth" {
+					found = true
+				}
+				return true
+			})
+			return found
+		}
+		appendsUnder := map[types.Object][]bool{}
+		var walk func(list []ast.Stmt, underDepth bool)
+		walk = func(list []ast.Stmt, underDepth bool) {
+			for _, st := range list {
+				switch x := st.(type) {
+				case *ast.AssignStmt:
+					if len(x.Lhs) == 1 && len(x.Rhs) == 1 {
+						if c, ok := core.Unparen(x.Rhs[0]).(*ast.CallExpr); ok && core.IsBuiltin(info, c, "append") {
+							if o := core.ObjOf(info, x.Lhs[0]); o != nil {
+								appendsUnder[o] = append(appendsUnder[o], underDepth)
+							}
+						}
+					}
+				case *ast.IfStmt:
+					d := underDepth || depthCond(x.Cond)
+					walk(x.Body.List, d)
+					// statements after `if depth > min { …; continue }` in the same list are selected by depth too
+					switch e := x.Else.(type) {
+					case *ast.BlockStmt:
+						walk(e.List, d)
+					}
+					if depthCond(x.Cond) && len(x.Body.List) > 0 {
+						if br, isBr := x.Body.List[len(x.Body.List)-1].(*ast.BranchStmt); isBr && br.Tok == token.CONTINUE {
+							underDepth = true
+						}
+					}
+				case *ast.RangeStmt:
+					walk(x.Body.List, false)
+				case *ast.ForStmt:
+					walk(x.Body.List, false)
+				case *ast.BlockStmt:
+					walk(x.List, underDepth)
+				}
+			}
+		}
+		walk(fd.Body.List, false)
+		byDepth := func(o types.Object) bool {
+			us := appendsUnder[o]
+			if len(us) == 0 {
+				return false
+			}
+			for _, u := range us {
+				if !u {
+					return false
+				}
+			}
+			return true
+		}
+		// the tag steps
+		k := 0
+		ast.Inspect(fd.Body, func(m ast.Node) bool {
+			c, ok := m.(*ast.CallExpr)
+			if !ok || len(c.Args) != 1 {
+				return true
+			}
+			callee := core.Callee(info, c)
+			if callee == nil || !readsTagged(p.DeclOf(callee)) {
+				return true
+			}
+			n++
+			k++
+			key := fmt.Sprintf("%s/tag-step#%d works-on-the-shallowest-fields", base, k)
+			arg := core.ObjOf(info, c.Args[0])
+			rc.Check(arg != nil && byDepth(arg), key, c.Pos(), "%s, which prefers tagged fields, is applied to %s, a list filled only with the candidates at the minimum embedding depth: applied to all candidates, a deeper tagged field beats a shallower untagged one (T{A;B}, A{X int}, B{C}, C{Y int `json:\"X\"`}: the key X would go to B.C.Y instead of A.X)", callee.Name(), core.Src(p.Fset, c.Args[0]))
+			return true
+		})
+	}
+	if n < 2 {
+		rc.Unknown("resolvers/tag-steps", token.NoPos, "found %d tag-preference steps in the two conflict resolvers (confirmed: one each)", n)
+	}
+}
+
+func nodeExpr(n ast.Node) ast.Expr {
+	if e, ok := n.(ast.Expr); ok {
+		return e
+	}
+	return nil
+}
